@@ -1644,6 +1644,15 @@ class Interp:
                     if pr_.f["first"] == k_:
                         return Iter(sn, i_)
                 return Iter(sn, len(sn.items))
+            if meth in ("lower_bound", "upper_bound") and len(args) == 1:
+                k_ = self.ev(args[0], env)
+                if isinstance(k_, bool):
+                    k_ = int(k_)
+                sn = recv.snapshot()
+                for i_, pr_ in enumerate(sn.items):
+                    if (pr_.f["first"] >= k_) if meth == "lower_bound" else (pr_.f["first"] > k_):
+                        return Iter(sn, i_)
+                return Iter(sn, len(sn.items))
             if meth in ("insert", "emplace") and args:
                 # insert(pair) / emplace(k, v): keeps an existing mapping, as std::map does
                 if len(args) == 1:
